@@ -9,7 +9,7 @@ src=$wt/out/$id
 mkdir -p seeded/$name
 cp $src/patch.diff $src/meta.json seeded/$name/
 # demos refer to the library either by the worktree path or relative to their own location (<lib>/out/<ID>/demo.py)
-sed -e "s#$wt#/repo#g" \
+sed -e "s#$wt/out/$id#$PWD/seeded/$name#g" -e "s#$wt#/repo#g" \
     -e 's#os.path.dirname(os.path.dirname(os.path.dirname(os.path.abspath(__file__))))#os.environ.get("XDIS_UNDER_TEST", "/repo")#g' \
     $src/demo.py > seeded/$name/demo.py
 [ -n "$(git -C /repo status --porcelain --untracked-files=no)" ] && { echo "/repo not clean"; exit 2; }
